@@ -45,6 +45,7 @@ def translate(ctx):
     import dataclasses
     key = [f.name for f in dataclasses.fields(nt.NetworkingThread._EnqueuedMessage) if f.compare]
     senders = sender_table(nt)
+    order = outbound_order(nt)
     src = ('import SdcModel.UdpRepeat\nimport SdcModel.UdpSendLoop\nnamespace Sdc.Generated\nopen Sdc.UdpRepeat\n'
            f'def unicast : Params := {p(u)}\ndef multicast : Params := {p(m)}\n'
            f'def knownIdsMaxlen : Nat := {th._known_message_ids.maxlen}\n'
@@ -52,11 +53,58 @@ def translate(ctx):
            f'def loopCfg : Sdc.UdpSendLoop.Cfg := ⟨{round(nt.SEND_LOOP_BUSY_SLEEP * 1e6)}, {round(nt.SEND_LOOP_IDLE_SLEEP * 1e6)}⟩\n'
            '/-- the compared fields of `_EnqueuedMessage`, in dataclass order -/\n'
            'def queueKey : List String := [' + ', '.join(f'"{k}"' for k in key) + ']\n'
+           '/-- what `add_outbound_message` does, in program order (traced on the real method) -/\n'
+           'def addOutboundOrder : List String := [' + ', '.join(f'"{k}"' for k in order) + ']\n'
            '/-- every `_send_*` of WSDiscovery: (name, destination is the multicast address, parameter set handed over) -/\n'
            'def senders : List (String × Bool × Params) := [' +
            ', '.join(f'("{n}", {"true" if mc else "false"}, {p(ps)})' for n, mc, ps in senders) + ']\n'
            'end Sdc.Generated\n')
     core.write_if_changed(core.GENERATED + '/UdpParams.lean', src)
+
+
+def outbound_order(nt, on_put=None):
+    """program order of `register own id` / `put on the send queue` inside the real add_outbound_message (multicast set)"""
+    th = _mk_thread()[1]
+    log = []
+
+    class Ids(collections.deque):
+        def appendleft(self, x):
+            log.append('register')
+            super().appendleft(x)
+
+    class Q(queue.PriorityQueue):
+        def put(self, item, *a, **k):
+            super().put(item, *a, **k)
+            log.append('put')
+            if on_put is not None:
+                on_put(th, len([x for x in log if x == 'put']))
+    th._known_message_ids = Ids(maxlen=th._known_message_ids.maxlen)
+    th._send_queue = Q(10000)
+    msg = mock.MagicMock()
+    msg.p_msg.header_info_block.MessageID = 'own-id'
+    with mock.patch.object(nt.random, 'randint', lambda a, b: 0), mock.patch.object(nt.random, 'randrange', lambda a, b=None: a):
+        th.add_outbound_message(msg, '239.255.255.250', 3702, nt.MULTICAST_REPEAT_PARAMS)
+    return log
+
+
+def run_register_race(ctx, nt):
+    """The send thread may transmit an entry as soon as it is on the queue, and multicast loops it back at once: at every
+    point after the first `put` a datagram with the own message id has to be skipped (forced schedule: the receive path
+    runs inside the enqueueing call, right after each put)."""
+    results = []
+
+    def on_put(th, k):
+        results.append((k, _impl_recv(nt, th, 'own-id')))
+    order = outbound_order(nt, on_put)
+    case = {'register_race': True, 'program_order': order, 'loop_back_after_put': results}
+    bad = [k for k, r in results if r == 'dispatch']
+    if bad:
+        ctx.fail('own-message-dispatched', f'own message looped back right after put number {bad[0]} of add_outbound_message was dispatched '
+                 f'(program order {order})', case)
+    if not results:
+        ctx.fail('own-message-race-not-exercised', str(order), case)
+    ctx.case(case, nontrivial=True)
+    ctx.count('register-race-runs')
 
 
 def sender_table(nt):
@@ -171,6 +219,7 @@ def run(ctx):
     run_backpressure(ctx, nt)
     # ---- the send loop on a virtual clock: transmissions vs schedule, several overlapping messages, stop while pending
     run_send_loop(ctx, nt)
+    run_register_race(ctx, nt)
     # ---- glue: every sender hands over the parameter set of its destination
     for name, mc, ps in sender_table(nt):
         want = nt.MULTICAST_REPEAT_PARAMS if mc else nt.UNICAST_REPEAT_PARAMS
@@ -253,13 +302,17 @@ def impl_send_loop(nt, script):
         def time():
             return clock.now / 1e6
 
+        n_sleeps = 0
+
         @staticmethod
         def sleep(dt):
-            target = clock.now + round(dt * 1e6)
+            # a sleep always takes time (at least 1 us of the virtual clock); a loop that does not end is an error, not a hang
+            FakeTime.n_sleeps += 1
+            target = clock.now + max(1, round(dt * 1e6))
             do_due(target)
             clock.now = target
-            if clock.now > 60_000_000:
-                raise RuntimeError('send loop still running after 60 virtual seconds')
+            if clock.now > 60_000_000 or FakeTime.n_sleeps > 200_000:
+                raise RuntimeError(f'send loop still running after {clock.now / 1e6} virtual seconds / {FakeTime.n_sleeps} sleeps')
     key = mock.MagicMock()
     th._outbound_selector = mock.MagicMock()
     th._outbound_selector.select = lambda timeout=None: [(key, None)]
@@ -451,6 +504,9 @@ def search(ctx):
         if bad:
             ctx.fail('retransmission-loop:' + bad[0], bad[1], {'loop_script': script, 'transmissions': sent[:40]})
             return
+    run_register_race(ctx, nt)
+    if ctx.failures:
+        return
     for name, mc, ps in sender_table(nt):
         want = nt.MULTICAST_REPEAT_PARAMS if mc else nt.UNICAST_REPEAT_PARAMS
         if ps != want:
@@ -494,6 +550,12 @@ def replay(ctx, obj):
         c2 = core.Ctx('C15', 'quick', 0)
         c2.driver_ok = False
         run_send_loop(c2, nt, [case['loop_script']])
+        for f in c2.failures:
+            print('  ', f['signature'], f['detail'])
+        return bool(c2.failures)
+    if 'register_race' in case:
+        c2 = core.Ctx('C15', 'quick', 0)
+        run_register_race(c2, nt)
         for f in c2.failures:
             print('  ', f['signature'], f['detail'])
         return bool(c2.failures)
